@@ -3730,6 +3730,10 @@ def sptenrand(
     if isinstance(density, float):
         # TODO this should be an int
         valid_nonzeros = float(prod(shape) * density)
+        if valid_nonzeros < 1:
+            # Less than one entry requested: ask for one, a value below 1 would be
+            # re-interpreted as a density by sptensor.from_function
+            valid_nonzeros = 1.0
     elif isinstance(nonzeros, (int, float)):
         valid_nonzeros = nonzeros
     else:  # pragma: no cover
